@@ -115,7 +115,8 @@ def abortAt (cs : List (Check P O)) (k : Nat) : Bool :=
 /-! ### `validatePointer`: the extra pass over the pointer itself (parser.go:1035)
 
   When the input is a pointer and some check is an overwrite, `validatePointerWithOverwrite`
-  first runs *all* checks with the pointer itself as payload. On a pointer payload every
+  runs *all* checks with the pointer itself as payload (before the regular pass up to /repo 49e6e91,
+  after an accepting regular pass since). On a pointer payload every
   built-in predicate reports an issue (`reflectx.Length/StringVal` reject pointers) and every
   `Refine` wrapper returns false without calling the user function; overwrites convert and run
   only when the schema's own type is the pointer type (`StringPtr()`), otherwise they return the
@@ -146,9 +147,9 @@ def firstPassFrom (env : Env P O T V) (ptrSchema : Bool) :
       else if abort then ⟨val, true, log ++ [.when i val]⟩
       else firstPassFrom env ptrSchema (i + 1) cs val true (log ++ [.when i val])
 
-/-- Checks of a string-like schema applied to an input that is (`ptrIn`) or is not a pointer,
-    for a schema whose own type is (`ptrSchema`) or is not the pointer type. -/
-def runChecksOn (env : Env P O T V) (ptrSchema ptrIn : Bool) (cs : List (Check P O)) (v : V) : Run V :=
+/-- `validatePointer` up to /repo 49e6e91 (kept for the witness theorems): the extra pass ran FIRST and
+    its result was taken when it had no issue. -/
+def legacyRunChecksOn (env : Env P O T V) (ptrSchema ptrIn : Bool) (cs : List (Check P O)) (v : V) : Run V :=
   if ptrIn && hasOverwrite cs then
     let fp := firstPassFrom env ptrSchema 0 cs v false []
     if ptrSchema && !fp.hasIssue then ⟨fp.val, [], fp.log⟩        -- early return, regular pass skipped
@@ -156,6 +157,21 @@ def runChecksOn (env : Env P O T V) (ptrSchema ptrIn : Bool) (cs : List (Check P
       let r := runChecks env cs v
       ⟨r.val, r.issues, fp.log ++ r.log⟩
   else runChecks env cs v
+
+/-- Checks of a string-like schema applied to an input that is (`ptrIn`) or is not a pointer,
+    for a schema whose own type is (`ptrSchema`) or is not the pointer type.
+    `validatePointer` since /repo 49e6e91 (parser.go:949): the validator (regular pass) runs first and
+    decides; only when it accepts and an overwrite is attached, the pass over the pointer runs
+    afterwards, and its value is the result when it ends without an issue and produced a new pointer. -/
+def runChecksOn (env : Env P O T V) (ptrSchema ptrIn : Bool) (cs : List (Check P O)) (v : V) : Run V :=
+  let r := runChecks env cs v
+  if ptrIn && hasOverwrite cs then
+    if r.issues ≠ [] then r                                         -- rejected by the validator: nothing else runs
+    else
+      let fp := firstPassFrom env ptrSchema 0 cs v false []
+      if ptrSchema && !fp.hasIssue then ⟨fp.val, [], r.log ++ fp.log⟩
+      else ⟨r.val, [], r.log ++ fp.log⟩
+  else r
 
 /-! ### Transform / Pipe wrappers (`core/transform.go`) around a checked schema -/
 
